@@ -18,10 +18,10 @@ def run(ctx):
         "traces_validated_against_impl": len(cases),
         "events_validated": n,
         "evaluations": nops,
-        "distinct_nontrivial": len({vlib.json.dumps(s, sort_keys=True) for c in cases for s in c["steps"]}),
+        "distinct_nontrivial": len({vlib.json.dumps(s, sort_keys=True) for c in cases for s in c.get("steps", [c])}),
         "rule": "evaluations = key-blinding operations executed on real Ed25519 keys; distinct = distinct (operation, arguments)",
         "operations": ops,
-        "samples": [vlib.trim({"scheme": c["scheme"], "kind": c["kind"], "steps": c["steps"][:6]}) for c in vlib.sample(cases, 2)],
+        "samples": [vlib.trim({"scheme": c["scheme"], "kind": c["kind"], "steps": c.get("steps", [])[:6]}) for c in vlib.sample(cases, 2)],
         "exhaustive": False,
     }, [
         "SHA-512, scalar and point arithmetic are uninterpreted in TLA+; blinded keys are compared with a math/big Edwards reference (own point decoding, affine addition, double-and-add)",
